@@ -343,6 +343,12 @@ func (self *Core) runInstruction(instruction compiler.Instruction) *value.VmInte
 		}
 	case compiler.Opcode_Pow:
 		// TODO: improve performance here
+		if (*self.getStackTop()).Kind() == value.FloatValueKind {
+			rFloat := (*self.pop()).(value.ValueFloat).Inner
+			lFloat := (*self.pop()).(value.ValueFloat).Inner
+			self.push(value.NewValueFloat(math.Pow(lFloat, rFloat)))
+			break
+		}
 		r := (*self.pop()).(value.ValueInt).Inner
 		l := (*self.pop()).(value.ValueInt).Inner
 		res := math.Pow(float64(l), float64(r))
